@@ -200,9 +200,36 @@ fn resample2(rng: &mut Rng) {
 
 /// closest-point length-along is only a faithful inverse on curves that do not come back to
 /// themselves; the spacing clauses are judged on those
+/// proper or touching intersection of two segments (orientation test with a relative tolerance)
+fn segments_meet(a: &Point2, b: &Point2, c: &Point2, d: &Point2, eps: f64) -> bool {
+    let o = |p: &Point2, q: &Point2, r: &Point2| (q - p).x * (r - p).y - (q - p).y * (r - p).x;
+    let (d1, d2, d3, d4) = (o(c, d, a), o(c, d, b), o(a, b, c), o(a, b, d));
+    let s = eps * ((b - a).norm() + (d - c).norm());
+    let (lab, lcd) = ((b - a).norm().max(1e-300), (d - c).norm().max(1e-300));
+    // signed distances of the end points from the other segment's line
+    let (e1, e2, e3, e4) = (d1 / lcd, d2 / lcd, d3 / lab, d4 / lab);
+    (e1 <= s && e2 >= -s || e1 >= -s && e2 <= s) && (e3 <= s && e4 >= -s || e3 >= -s && e4 <= s) && {
+        // collinear overlap needs the projections to overlap as well
+        let t = |p: &Point2| (p - a).dot(&(b - a)) / (lab * lab);
+        let (tc, td) = (t(c), t(d));
+        !(e3.abs() <= s && e4.abs() <= s) || (tc.min(td) <= 1.0 + eps && tc.max(td) >= -eps)
+    }
+}
+
 fn self_touching2(c: &Curve2) -> bool {
     let p = c.points();
     let n = p.len();
+    // any two non-adjacent edges that cross or touch
+    for a in 0..n - 1 {
+        for b in a + 2..n - 1 {
+            if a == 0 && b == n - 2 && c.is_closed() {
+                continue;
+            }
+            if segments_meet(&p[a], &p[a + 1], &p[b], &p[b + 1], 1e-9) {
+                return true;
+            }
+        }
+    }
     let eps = 1e-6 * (1.0 + c.length());
     // adjacent edges that double back (including across the seam of a closed curve)
     let mut adj: Vec<(usize, usize)> = (0..n - 2).map(|k| (k, k + 1)).collect();
